@@ -20,7 +20,19 @@ class PrintUnit(Unit):
         inner = prog.inner.verus_enum() if prog.inner else ''
         return '\n'.join([prog.aux_verus, inner, prog.verus_enum(), pre, asm.text, lemmas])
     def kani_module(self, ctx, prog):
-        return spec_print.kani_module(prog, want_names=True)
+        return spec_print.kani_module(prog, want_names=True, want_grid=True)
+    def fallback_harnesses(self, ctx, prog, fns):
+        # name twins for every (variant, printer) + a concrete format-spec twin for up to two fixed-name variants per program, and at
+        # most six programs (format! under CBMC takes minutes): a bounded sample of specs, labelled so
+        hs = spec_print.kani_harness_list(prog, want_names=True)
+        if not hasattr(self, '_grid_progs'):
+            cands = [p for p in ctx.programs if spec_print.grid_variants(p)]
+            multi = [p for p in cands if any(ord(c) > 127 for v in spec_print.grid_variants(p) for c in oracle.canonical_names(p, v)[0])]
+            rest = [p for p in cands if p not in multi]
+            self._grid_progs = set(p.name for p in multi[:3] + rest[:3])
+        if prog.name in self._grid_progs:
+            hs += [('grid_' + v.ident, 'format specs on %s' % v.ident) for v in spec_print.grid_variants(prog)]
+        return hs
     def kani_harnesses(self, ctx, prog):
         if ctx.pid != 'C03' or 'random' in prog.tags:
             return []
@@ -29,7 +41,8 @@ class PrintUnit(Unit):
         return None
     def candidate_replay(self, ctx, prog, o):
         from .. import lreplay
-        return lreplay.printers(prog, o.fn)
+        fn = 'fmt' if ('format specs' in o.fn or 'display' in o.fn) else o.fn
+        return lreplay.printers(prog, fn)
     def sample(self, ctx, prog, plan):
         k = (prog.name, 'Display', 'fmt')
         if k in plan:
